@@ -79,6 +79,8 @@ def recording_engine(loe, bs):
     eng.max_input_horizontal_pixels = 480 * bs
     eng.net_subsampling = 4
     eng.seen = []
+    eng.widths = []
+    eng.dirty = []
 
     def run_ocr(batch):
         ids = []
@@ -86,6 +88,11 @@ def recording_engine(loe, bs):
             # the first 4 bytes of the line (after the left padding) carry its id
             ids.append(int(img[0, 32, 0]) + 256 * int(img[0, 32, 1]))
         eng.seen.append((ids, int(batch.shape[2])))
+        # the network input of a line is that line between blank padding: nothing but zeros outside its own columns
+        for i, img in zip(ids, batch):
+            w = eng.widths[i] if i < len(eng.widths) else 0
+            if img[:, :32].any() or img[:, 32 + w:].any():
+                eng.dirty.append(i)
         T = batch.shape[2] // 4
         return ['x'] * len(batch), [np.zeros((T, 3)) for _ in batch]
     eng.run_ocr = run_ocr
@@ -100,6 +107,10 @@ def gen_widths(rng):
         return [w] * n                              # equal widths
     if mode < 0.4:
         return [rng.choice([1, 31, 32, 33, 64, 479, 480, 481]) for _ in range(n)]
+    if mode < 0.6:
+        # different widths that round up to the same multiple of 32: consecutive batches of identical geometry
+        top = 32 * rng.randrange(1, 16)
+        return [top - rng.randrange(0, 32) for _ in range(n)]
     return [rng.randrange(1, 2500) for _ in range(n)]
 
 
@@ -121,6 +132,7 @@ def run(ctx):
         ws = gen_widths(rng)
         bs = rng.randrange(1, 17)
         eng = recording_engine(loe, bs)
+        eng.widths = list(ws)
         lines = []
         for i, w in enumerate(ws):
             im = np.full((32, w, 3), 7, dtype=np.uint8)
@@ -136,6 +148,9 @@ def run(ctx):
         except Exception as e:
             ctx.violation('raises:' + type(e).__name__, 'process_lines raised %r' % (e,), inp)
             continue
+        if eng.dirty:
+            ctx.violation('input-not-own-line', "the network input of a line holds pixels outside the line's own columns (the padding is not blank: "
+                          "left-overs of another line reach a network with horizontal context)", inp, sorted(set(eng.dirty)))
         if any(t is None for t in tr):
             ctx.violation('missing-result', 'an input position received no result', inp, tr)
         seen_ids = [i for ids, _ in eng.seen for i in ids]
